@@ -75,3 +75,19 @@ from c04uo_part import MODULES as _UO_MODULES, THEOREMS as _UO_THEOREMS, LEVEL_T
 PROP["modules"] += _UO_MODULES
 PROP["theorems"] += _UO_THEOREMS
 PROP["manifest"]["level_text"] += _UO_TEXT
+
+# bLTSFIX: event-driven suppression is a step of the LTS (ShLabel.w1Quiet: stored, not announced; ghost Shared.qlog); converges /
+# no_missed_change / converges_streamed_only are stated modulo the logged quiet writes (ORel (QChain qlog))
+PROP["theorems"] += ["Gnmi.C04." + t for t in ["converges_exact", "converges_equiv", "qlog_step"]] + [
+    "Gnmi.C06Glue.converges_concrete_mod"] + ["Gnmi.SubLTS." + t for t in [
+    "QChain.mono", "QChain.eq_of_nil", "QChain.rel", "ORel.eq_of_nil", "expect_setVal", "good_quiet", "conv_shared", "conv_local"]]
+PROP["manifest"]["level_text"] += (
+    " Event-driven suppression (the cache's default: an update that leaves the value unchanged is stored but not announced) is a step of "
+    "the LTS (w1Quiet: tree write W1 without W2, logged as (old, new) in the ghost qlog; the test value.Equal is not a guard, so the LTS "
+    "over-approximates the code). converges, converges_streamed_only and the invariant no_missed_change are therefore stated modulo the "
+    "quiet writes: replay(sent)(k) and cache(k) are both absent or linked by a chain of logged quiet rewrites; converges_exact (empty "
+    "log: equality, the former statement) and converges_equiv (every logged pair related by a reflexive transitive E, the code's "
+    "value.Equal: replay and cache are E-related — the form of the sequential model's Feed.Sim) are the corollaries; qlog_step: the log "
+    "grows only by w1Quiet, by (cache(k), v). C06Glue.converges_concrete now carries the hypothesis qlog = [] (converges_concrete_mod is "
+    "the general form). The handler of the LTS rejects an unknown mode at the mode switch (h4, after HasTarget and the ACL check) and "
+    "the send timer is armed around the Send of the sync marker, as the repaired code does.")
